@@ -11,9 +11,15 @@ def counter : UserL (Nat × Nat) String where
 
 abbrev St := State (CS (Nat × Nat))
 
-def svcOf (name type server : String) (port : Nat) (text : Bytes) (v4 : Bytes) : Svc :=
+def svcOf (name type server : String) (port : Nat) (text : Bytes) (v4 v6 : List Bytes) : Svc :=
   { type := type, name := name, server := server, port := port, weight := 0, priority := 0, text := text,
-    hostTtl := 120, otherTtl := 4500, v4 := [v4], v6 := [] }
+    hostTtl := 120, otherTtl := 4500, v4 := v4, v6 := v6 }
+
+/-- a service as the application passed it: names, port, TXT rdata, every IPv4 and every IPv6 address -/
+def parseSvc : Tok Svc := do
+  let name ← Tok.str; let type ← Tok.str; let server ← Tok.str; let port ← Tok.nat; let text ← Tok.bytes
+  let v4 ← Tok.list Tok.bytes; let v6 ← Tok.list Tok.bytes
+  pure (svcOf name type server port text v4 v6)
 
 def parseOp : Tok (HBlock (Nat × Nat)) := do
   let k ← Tok.next
@@ -23,15 +29,11 @@ def parseOp : Tok (HBlock (Nat × Nat)) := do
     pure (.recv data addr port now draw)
   | "t" => do let addr ← Tok.str; pure (.tcFire addr)
   | "g" => do
-    let name ← Tok.str; let type ← Tok.str; let server ← Tok.str; let port ← Tok.nat; let text ← Tok.bytes; let v4 ← Tok.bytes
+    let s ← parseSvc
     let strict ← Tok.bool
-    pure (.api (.register (svcOf name type server port text v4) strict))
-  | "u" => do
-    let name ← Tok.str; let type ← Tok.str; let server ← Tok.str; let port ← Tok.nat; let text ← Tok.bytes; let v4 ← Tok.bytes
-    pure (.api (.update (svcOf name type server port text v4)))
-  | "x" => do
-    let name ← Tok.str; let type ← Tok.str; let server ← Tok.str; let port ← Tok.nat; let text ← Tok.bytes; let v4 ← Tok.bytes
-    pure (.api (.unregister (svcOf name type server port text v4)))
+    pure (.api (.register s strict))
+  | "u" => do let s ← parseSvc; pure (.api (.update s))
+  | "x" => do let s ← parseSvc; pure (.api (.unregister s))
   | "b" => do
     let now ← Tok.int; let types ← Tok.list Tok.str
     pure (.api (.browserStart ⟨types, 1000, none, 20, 120⟩ now))
@@ -67,22 +69,29 @@ def summary (s : St) (out : List (Out (COut String))) : String :=
 def stepD (s : St) (b : HBlock (Nat × Nat)) : Except PyExc (St × List (Out (COut String))) :=
   hstep asciiLower possibleTypes 4500 (fun _ _ => true) (fun _ t => (20, 20, t)) (fun _ => 0) counter (fun _ _ _ => false) s b
 
-def runOps : St → List (HBlock (Nat × Nat)) → List String
+/-- the same block over `downQ` (per-question routing, known-answer suppression, the four answer sets): the downstream of
+`C15_history_closedQ_partial` and of the two third-clause theorems (review 3: it was never executed by a harness) -/
+def stepQ (s : St) (b : HBlock (Nat × Nat)) : Except PyExc (St × List (Out (COut String))) :=
+  hstepD asciiLower possibleTypes (fun _ => 0) counter (fun _ _ _ => false)
+    (downQ asciiLower possibleTypes 4500 (fun _ t => (20, 20, t)) counter (fun _ _ _ => false)) s b
+
+def runOps (step : St → HBlock (Nat × Nat) → Except PyExc (St × List (Out (COut String)))) : St → List (HBlock (Nat × Nat)) → List String
   | _, [] => []
   | s, b :: rest =>
-    match stepD s b with
-    | .ok (s', out) => summary s' out :: runOps s' rest
-    | .error e => s!"error:{e.name}/-/-/-/-/-/-/-" :: runOps s rest
+    match step s b with
+    | .ok (s', out) => summary s' out :: runOps step s' rest
+    | .error e => s!"error:{e.name}/-/-/-/-/-/-/-" :: runOps step s rest
 
 /-- `c15api <n> { op }` → per block `ok|error:<exc>/callbacks/keys/has_entries/cached/browsers/lookups/users` -/
-def c15api (toks : List String) : String :=
+def c15api (q : Bool) (toks : List String) : String :=
   match (do let ops ← Tok.list parseOp; Tok.done; pure ops : Tok (List (HBlock (Nat × Nat)))).run toks with
-  | some (ops, _) => " ".intercalate (runOps (State.init ⟨{}, [], [], [], {}, [], [], none, ({}, {})⟩) ops)
+  | some (ops, _) => " ".intercalate (runOps (if q then stepQ else stepD) (State.init ⟨{}, [], [], [], {}, [], [], none, ({}, {})⟩) ops)
   | none => "bad-op"
 
 def dispatch (cmd : String) (rest : List String) : Option String :=
   match cmd with
-  | "c15api" => some (c15api rest)
+  | "c15api" => some (c15api false rest)
+  | "c15apiq" => some (c15api true rest)
   | _ => none
 
 end Zc.Driver.C15Api
